@@ -270,6 +270,13 @@ func TestC14(t *testing.T) {
 					ackOffs[totalAcked] = string(evs[totalAcked].Offset)
 					totalAcked++
 				}
+				// likewise the save that was in flight may have taken effect (verify accepted it):
+				// it is part of the durable state that later cycles build on
+				if inSub != "" {
+					if got, err := st.LoadOffset(context.Background(), inSub); err == nil && string(got) == inOff && inOff != "" {
+						saves[inSub] = inOff
+					}
+				}
 				st.Close()
 			}
 			run.Case(fmt.Sprintf("%s|acks%d|cycle%d", mode, a.lines/4, c), killed && a.lines > 0 && !a.done)
